@@ -225,6 +225,40 @@ impl Game {
             bail!("Pawn on the first or last rank");
         }
 
+        // Castling and en passant trust the state: it must agree with the board,
+        // otherwise a rook or a pawn that is not there gets moved or taken
+        let holds = |row: i8, col: i8, piece_type, owner| {
+            board[Position::new_assert(row, col).as_usize()] == Some(Piece { piece_type, owner })
+        };
+        for (right, row, rook_col, owner) in [
+            (state.white_king_castling(), 0, 7, Player::White),
+            (state.white_queen_castling(), 0, 0, Player::White),
+            (state.black_king_castling(), 7, 7, Player::Black),
+            (state.black_queen_castling(), 7, 0, Player::Black),
+        ] {
+            if right
+                && !(holds(row, 4, PieceType::King, owner)
+                    && holds(row, rook_col, PieceType::Rook, owner))
+            {
+                bail!("Castling rights do not match the board");
+            }
+        }
+        if state.en_passant() < 8 {
+            // The pawn that has just made its double step, and the two squares behind it
+            let (pawn_row, behind) = match current_player {
+                Player::White => (4, [5, 6]),
+                Player::Black => (3, [2, 1]),
+            };
+            let col = state.en_passant();
+            if !holds(pawn_row, col, PieceType::Pawn, current_player.the_other())
+                || behind
+                    .iter()
+                    .any(|&row| board[Position::new_assert(row, col).as_usize()].is_some())
+            {
+                bail!("En passant square does not match the board");
+            }
+        }
+
         let mut game = Self {
             board,
             move_stack: Vec::with_capacity(1000),
